@@ -715,7 +715,7 @@ def check_full_scans(P, ctx):
         if len(conds) != 1:
             bad = 'expected one scan loop bounded by the count, found %d' % len(conds)
         else:
-            lp = full_range(g, conds[0], 'nitems')
+            lp = full_range(g, conds[0], 'nitems', search=True)      # a search loop may stop at its hit
             if isinstance(lp, str):
                 bad = lp
         ctx.check(bad is None, rule, fname, site(fn), 'the element scan visits every index 0..count-1 once', [bad] if bad else None)
